@@ -26,6 +26,27 @@ CHECKS = {
          "At every successful send's return stamp: successful sends minus values taken by receive operations already begun never exceeds the capacity; observers (len, capacity, is_full, is_bounded) and unbounded-never-blocks checked on every run.", "4 C08"),
  "C09": ("exploration", "deterministic simulation: mixed sync/async endpoints through every conversion",
          "Workloads forced to have both flavours on each side, handles produced by clone/clone_sync/clone_async/to_*/as_*; delivery, drop, order and progress oracles evaluated on those runs.", "4 C09"),
+
+ "C03": ("exploration", "deterministic simulation + exhaustive search of a reference model's atomic interleavings (explainability)",
+         "Small multi-task programs over the whole API under seeded schedules; the observed results must be reproducible by an exhaustive memoised search over the reference channel's atomic steps (register/complete/give-up/cancel) respecting program order.", "4 C03"),
+ "C10": ("exploration", "deterministic simulation: close injected at any op boundary, real-time oracle",
+         "close() from any handle at any point against blocked, pending, buffered and in-flight operations; at most one Ok; every operation begun after close returned yields the closed result; buffered values destroyed by the time close returns; blocked operations released (hang oracle).", "4 C10"),
+ "C11": ("exploration", "deterministic simulation: handle clone/drop injected everywhere, interval-count oracle",
+         "Clone/drop of handles of both flavours racing with operations; a disconnect error is accepted only if the other side's handle count can have been zero during the call; after the last handle is certainly gone sends fail / receives drain then report the error.", "4 C11"),
+ "C12": ("exploration", "deterministic simulation: interval bounds on observed counts",
+         "sender_count/receiver_count observations must lie between the handles certainly alive and possibly alive during the observation; exact when sequential; zero for ever after close.", "4 C12"),
+ "C13": ("exploration", "deterministic simulation: virtual clock with jumps, ledger and lifetime monitors",
+         "Timed operations against peers arriving, handing off, closing or disconnecting around the deadline under three clock policies; Timeout never before the deadline (virtual time), value back/dropped exactly once, never delivered after Timeout, nothing left in the wait list (lifetime monitor), the call returns (hang oracle).", "4 C13"),
+ "C14": ("exploration", "deterministic simulation: probes + own-step bound + explainability",
+         "try_*/drain never register, wait or park (probes inside kanal); realtime variants return within 64 of their own decisions even with peers frozen inside the critical section; success iff the ledger shows the value moved; results explainable by the reference model.", "4 C14"),
+ "C15": ("exploration", "deterministic simulation: cancellation injected at drawn decisions",
+         "Futures dropped never-polled, after k polls, or a drawn number of decisions after Pending while a peer is handing off; ledger (delivered once or dropped once), lifetime monitor (no access to the dropped future), order of remaining waiters.", "4 C15"),
+ "C16": ("exploration", "deterministic simulation: harness executor with spurious polls and waker replacement",
+         "Spurious polls with the same or a fresh waker at any position, re-poll after completion (must panic), streams polled across many waits and after the end; stale-waker hangs, duplicated or invented values, order and end-of-stream stability are reported.", "4 C16"),
+ "C18": ("exploration", "deterministic simulation (single task): lock-step comparison with a reference model",
+         "Systematic sweep of all call sequences up to length 3 (quick) / 4 (thorough) over a 26-call core alphabet x 4 capacities plus seeded random sequences of length <= 40 over the full alphabet; every return value compared with the reference channel; only the documented panics allowed.", "4 C18"),
+ "C19": ("exploration", "deterministic simulation: drain-specific real-time oracle",
+         "drain_into against buffered values plus blocked sync and pending async senders, with prior vector contents: count equals appended, prefix untouched, order, nothing that was in the channel before the drain began is left for a receive begun after it returned, never waits.", "4 C19"),
 }
 NA = {
  "C20": "compile-time fact about trait bounds: there is no schedule, clock, fault or history for a simulator to vary, and the negative half is 'this program must not compile' (needs trait assertions / compile-fail tests, a different technique)",
